@@ -15,15 +15,15 @@ two- or three-token rule fires and `merge` finds no phrase (`foldTwo_benign`, `f
 ≤ 5, and **no such key is in the blacklist** (`benign_fingerprints_absent`, the whole regenerated table
 at once); (4) no `'`/`"`, no `#`/`--` comment counted, so the other four readings are not tried.
 
-**Also proved (`benign_items_not_sqli`, `email_not_sqli`): the e-mail-like family.** A word may be followed
+**Also proved (`benign_items_not_sqli`, `email_not_sqli`, `decimal_not_sqli`): the e-mail-like and decimal families.**
+A decimal number `digits.digits` is lexed as one number (`parseNumber_dec`: the fraction branch of `parseNumber`). A word may be followed
 directly by `@` and a dotted identifier (`name@host.tld`), and such variables may stand alone: `@host.tld` is
 lexed as one variable token (`parseVar_good`), variables are inert in `fold` like barewords and numbers (no rule
 fires without an operator, comma or parenthesis between them), and **no key over `{n,1,v}` is in the blacklist**
 (the table fact now covers the three classes).
 
-Not theorems (sampled by the oracle and compared with the model): the `a.b@c.d`, decimal-number and
-punctuated-sentence families of the property (they involve the `.`-split of `parseWord`, the fraction branch of
-`parseNumber` and folding over `,` `!` `?` `:` tokens). -/
+Not theorems (sampled by the oracle and compared with the model): the `a.b@c.d` and punctuated-sentence
+families of the property (they involve the `.`-split of `parseWord` and folding over `,` `!` `?` `:` tokens). -/
 namespace LibInj.Properties.C14
 open LibInj LibInj.Tables LibInj.Sqli
 
@@ -63,16 +63,18 @@ theorem benign_not_sqli : C14_statement := by
 /-- what may stand between single spaces: a word, an unsigned integer, `word@dotted.identifier`, `@dotted.identifier` -/
 def Item (x : Bytes) : Prop :=
   (Word x ∧ NotKeywordLike x) ∨ Num x ∨
-  (∃ w vw, x = w ++ 64 :: vw ∧ Word w ∧ NotKeywordLike w ∧ VarBody vw) ∨ (∃ vw, x = 64 :: vw ∧ VarBody vw)
+  (∃ w vw, x = w ++ 64 :: vw ∧ Word w ∧ NotKeywordLike w ∧ VarBody vw) ∨ (∃ vw, x = 64 :: vw ∧ VarBody vw) ∨
+  (∃ d1 d2, x = d1 ++ 46 :: d2 ∧ Num d1 ∧ Num d2)
 
 theorem txt_item (x r : Bytes) (hx : Item x) (hsep : Sep r) (hr : Txt r) : Txt (x ++ r) := by
-  rcases hx with ⟨hword, hk1, hk2⟩ | hnum | ⟨w, vw, rfl, hword, ⟨hk1, hk2⟩, hv⟩ | ⟨vw, rfl, hv⟩
+  rcases hx with ⟨hword, hk1, hk2⟩ | hnum | ⟨w, vw, rfl, hword, ⟨hk1, hk2⟩, hv⟩ | ⟨vw, rfl, hv⟩ | ⟨d1, d2, rfl, h1, h2⟩
   · exact Txt.word (Or.inl ⟨hword, fun _ => hk1, fun _ => hk2⟩) hsep hr
   · exact Txt.word (Or.inr hnum) hsep hr
   · have := Txt.wordAt (w := w) ⟨hword, fun _ => hk1, fun _ => hk2⟩ (Txt.var hv hsep hr)
     simpa [List.append_assoc] using this
   · have := Txt.var hv hsep hr
     simpa using this
+  · exact Txt.dec ⟨d1, d2, rfl, h1, h2⟩ hsep hr
 
 theorem txt_items : ∀ (xs : List Bytes), (∀ x ∈ xs, Item x) → Txt (unwords xs)
   | [], _ => Txt.nil
@@ -105,6 +107,14 @@ theorem email_not_sqli (w1 w2 w3 : Bytes) (h1 : Word w1) (hk : NotKeywordLike w1
     have : x = w1 ++ 64 :: (w2 ++ 46 :: w3) := by simpa using hx
     subst this
     exact Or.inr (Or.inr (Or.inl ⟨w1, _, rfl, h1, hk, hv⟩)))
+  simpa [unwords] using this
+
+/-- the decimal shape of the property: `d1.d2` -/
+theorem decimal_not_sqli (d1 d2 : Bytes) (h1 : Num d1) (h2 : Num d2) : isSQLi (d1 ++ 46 :: d2) = .ok (false, []) := by
+  have := benign_items_not_sqli [d1 ++ 46 :: d2] (fun x hx => by
+    have : x = d1 ++ 46 :: d2 := by simpa using hx
+    subst this
+    exact Or.inr (Or.inr (Or.inr (Or.inr ⟨d1, d2, rfl, h1, h2⟩))))
   simpa [unwords] using this
 
 /-- non-vacuity: the conclusion on `joe@example.com 42` is what the kernel computes -/
